@@ -208,6 +208,10 @@ def gen_cases(tier, seed):
     for i, t in enumerate(IRQ_TEXTS):
         cs.append({'kind': 'irq', 'base': {'src': 'text', 'text': t, 'seed': i}, 'cfg': [i % 3, bool(i % 2)], 'rs': i,
                    'exhaustive_upto': 1500})
+    for i, t in enumerate(IRQ_DISARMED):
+        for g in (False, True):
+            cs.append({'kind': 'irq', 'base': {'src': 'text', 'text': t, 'seed': i}, 'cfg': [i % 3, g], 'rs': i,
+                       'exhaustive_upto': 1500, 'disarmed_after_output': True})
     return cs
 
 
@@ -221,6 +225,13 @@ IRQ_TEXTS = [
     "ON ERROR GOTO h\nPRINT 1 / 0\nPRINT 2\nEND\nh: PRINT ERR\nRESUME NEXT\n",
     "ON ERROR RESUME NEXT\nx% = 32767\nx% = x% + 1\nPRINT x%\n",
     "CLS\nLOCATE 1, 1\nCOLOR 7, 0\nBEEP\nSOUND 440, 1\nPRINT \"a\"\n",
+]
+
+
+IRQ_DISARMED = [
+    "ON ERROR GOTO h\nON ERROR GOTO 0\nFOR i = 1 TO 4\nPRINT i\nNEXT\nEND\nh: RESUME NEXT\n",
+    "ON ERROR RESUME NEXT\nx = 1 / 0\nON ERROR GOTO 0\nPRINT 1\nPRINT 2\nGOSUB s\nEND\ns: PRINT 3\nRETURN\n",
+    "ON ERROR GOTO h\ny% = 0\nx = 1 \\ y%\nON ERROR GOTO 0\nPRINT \"a\"\nPRINT \"b\"\nEND\nh: RESUME NEXT\n",
 ]
 
 
@@ -287,6 +298,10 @@ def run_irq(case):
                 if cpu.halted or cpu.pc >= len(mod.code):
                     continue        # run already over: no boundary here
                 armed = cpu.trap_target is not None
+                if case.get('disarmed_after_output') and any(e[0] == 'out' for e in impl.h):
+                    # this program executes ON ERROR GOTO 0 before its first PRINT: from then on no handler is
+                    # armed whatever the CPU's own bookkeeping says
+                    armed = False
                 before, _d = state_digest(cpu, impl)
                 os.kill(os.getpid(), signal.SIGINT)
                 # the handler QvmCpu installed runs now (between two ticks)
